@@ -758,3 +758,166 @@ def anyevents(F, R):
         R.ob('C07.any-events', not missing, {'machine': Facts.short(m.fe, 60), 'tried': len(evs), 'declared_below': len(need)})
         if missing:
             R.find('C07.any-events', ('boost/msm/back/favor_compile_time.hpp', 'BOOST_MSM_BACK_GENERATE_PROCESS_EVENT'), 'missing-events', 'process_any_event of %s does not try event type(s) %s, which are triggers of machines nested below it: such events are never forwarded under favor_compile_time' % (Facts.short(m.fe, 60), [Facts.short(x, 40) for x in missing[:4]]), where='boost/msm/back/favor_compile_time.hpp', instance=Facts.short(m.fe, 160))
+
+@rule('defaults')
+def defaults(F, R):
+    """C05.cell / C10.nt / C06.nt (back, back11 runtime-speed): the default cell installed for (state, event) when no row matches:
+    defer_transition iff the state lists the event in deferred_events, default_eventless_transition for completion events (never a
+    no_transition report), call_no_transition otherwise; and what those three cell functions do."""
+    M = Model(F)
+    from rules_core import backend_of
+    from effects import Effects, leaf_class
+    E = Effects(F)
+    for f in F.funcs:
+        be = backend_of(f)
+        if be not in ('back', 'back11') or not f.blocks: continue
+        if f.cls == 'default_init_cell' and f.n == 'operator()' and f.file.endswith('/dispatch_table.hpp'):
+            da = f.cls_args('dispatch_table')
+            if not da or len(da) < 3: continue
+            ev = strip_cvref(str(da[2])); st = strip_cvref(str((f.targs() or [''])[0]))
+            fsm = strip_cvref(str(da[0]))
+            stored = None
+            for n in f.nodes:
+                if n and n['k'] == 'decl':
+                    for v in n['vars']:
+                        if v['hasinit']:
+                            ini = f.nodes[v['init']]
+                            if ini and ini['k'] == 'un' and ini['op'] == '&': stored = f.nodes[ini['e']].get('n')
+            if stored is None: continue
+            R.seen(f); R.anchor('default-cell:' + be)
+            evrec = F.rec_by_type(ev)
+            completion = bool(evrec and 'completion_event' in evrec['tds'])
+            m = M.machine_of(fsm)
+            if st == fsm: exp = 'default_eventless_transition' if completion else 'call_no_transition_internal'
+            elif completion: exp = 'default_eventless_transition'
+            else:
+                if F.rec_by_type(st) is None and M.machine_of(st) is None: continue
+                deferred = ev in [strip_cvref(x) for x in M.deferred(st)]
+                # Kleene deferral: a state deferring boost::any defers every event
+                if any(M.is_kleene(x) for x in M.deferred(st)): deferred = True
+                exp = 'defer_transition' if deferred else 'call_no_transition'
+            ok = stored == exp
+            R.ob('C05.default-cell', ok, {'state': Facts.short(st, 50), 'event': Facts.short(ev, 30), 'cell': stored})
+            if not ok:
+                R.find('C05.default-cell', f, 'cell:' + exp, 'default cell of state %s for event %s is %s, the declarations require %s' % (Facts.short(st, 60), Facts.short(ev, 40), stored, exp), instance='%s / %s' % (Facts.short(st, 100), Facts.short(ev, 60)))
+        if f.cls == 'state_machine' and f.n in ('default_eventless_transition', 'call_no_transition', 'call_no_transition_internal', 'defer_transition') and f.d.get('static'):
+            R.seen(f); R.anchor('cell-fn:%s:%s' % (be, f.n))
+            classes = set()
+            for i, n in f.calls():
+                classes |= set(E.call_classes(f, n))
+            rets = {f.expr(n['e']) for n in f.nodes if n and n['k'] == 'ret' and n['e']}
+            if f.n == 'default_eventless_transition':
+                ok = not (classes & {'NO_TRANSITION', 'DEFER', 'GUARD', 'ACTION', 'ENTRY', 'EXIT'}) and rets == {'HANDLED_FALSE'}
+            elif f.n == 'defer_transition':
+                ok = 'DEFER' in classes and 'NO_TRANSITION' not in classes and rets == {'HANDLED_DEFERRED'}
+            else:
+                ok = not (classes & {'DEFER', 'GUARD', 'ACTION', 'ENTRY', 'EXIT'}) and rets == {'HANDLED_FALSE'}
+            R.ob('C05.default-cell', ok, {'func': f.q, 'classes': sorted(classes & {'NO_TRANSITION', 'DEFER'}), 'returns': sorted(rets)})
+            if not ok: R.find('C05.default-cell', f, 'cell-fn', '%s runs %s and returns %s' % (f.n, sorted(classes), sorted(rets)))
+        if f.cls == 'handle_eventless_transitions_helper' and f.n == 'process_completion_event' and any(n.get('n') == 'process_event_internal' for i, n in f.calls()):
+            R.seen(f); R.anchor('completion-helper:' + be)
+            # only when the last step was handled; dispatches the first completion event as a direct call
+            calls = [n for i, n in f.calls() if n.get('n') == 'process_event_internal']
+            cond_ok = any(b.get('tc') and f.nodes[b['tc']].get('n') == 'handled' for b in f.blocks)
+            arg = f.expr(calls[0]['args'][1]) if calls and len(calls[0]['args']) > 1 else ''
+            ok = len(calls) == 1 and cond_ok and 'EVENT_SOURCE_DIRECT' in arg
+            R.ob('C10.first', ok, {'func': f.q, 'source_arg': arg})
+            if not ok: R.find('C10.first', f, 'completion-helper', 'the completion dispatch must happen only after a handled step, once, as a direct call (found guarded=%s, source=%s)' % (cond_ok, arg))
+
+@rule('introspect')
+def introspect(F, R):
+    """C03.introspect: the introspection calls answer from the active-state array itself."""
+    from rules_core import backend_of
+    from effects import ACTIVE_MEMBERS
+    from rules_rtc import active_index, const_of
+    for f in F.funcs:
+        be = backend_of(f)
+        if be is None or not f.blocks: continue
+        if f.cls in ('state_machine', 'state_machine_base') and f.n in ('current_state', 'get_active_state_ids'):
+            R.seen(f); R.anchor('active-getter:%s' % be)
+            rets = [n for n in f.nodes if n and n['k'] == 'ret' and n['e']]
+            ok = bool(rets) and all(f.base_member(r['e']) in ACTIVE_MEMBERS for r in rets)
+            R.ob('C03.introspect', ok, {'func': f.q})
+            if not ok: R.find('C03.introspect', f, 'getter', '%s must return the machine\'s active-state array' % f.n)
+        if be in ('back', 'back11') and f.cls == 'state_machine' and f.n == 'visit_current_states':
+            R.seen(f); R.anchor('visit-current:' + be)
+            idx = [active_index(f, i) for i, n in enumerate(f.nodes) if n and n['k'] == 'sub']
+            idx = [x for x in idx if x]
+            execs = [n for i, n in f.calls() if n.get('n') == 'execute' and n.get('obj') and f.base_member(n['obj']) == 'm_visitors']
+            loopv = None
+            for x in idx:
+                iv = f.nodes[x[0]]
+                if iv and iv['k'] == 'ref' and iv.get('dk') == 'local': loopv = iv['n']
+            ok = len(execs) == 1 and loopv is not None
+            if ok:
+                init0 = any(v['n'] == loopv and v['hasinit'] and const_of(f, v['init']) == 0 for m in f.nodes if m and m['k'] == 'decl' for v in m['vars'])
+                bound = any(b.get('tc') and f.nodes[b['tc']]['k'] == 'bin' and f.nodes[b['tc']]['op'] == '<' and f.nodes[f.nodes[b['tc']]['lhs']].get('n') == loopv for b in f.blocks)
+                ok = init0 and bound
+            R.ob('C03.introspect', ok, {'func': f.q})
+            if not ok: R.find('C03.introspect', f, 'visit', 'visit_current_states must visit the active state of every region 0..nr_regions-1')
+        if be in ('back', 'back11') and f.cls == 'get_state_id_helper' and f.n == 'operator()':
+            # the state whose address is returned is the one whose id is compared
+            ta = f.targs() or []
+            st = strip_cvref(str(ta[0])) if ta else ''
+            cmpc = None
+            for n in f.nodes:
+                if n and n['k'] == 'bin' and n['op'] == '==':
+                    cmpc = const_of(f, n['lhs']) if const_of(f, n['lhs']) is not None else const_of(f, n['rhs'])
+            if cmpc is None: continue
+            R.seen(f); R.anchor('state-by-id:' + be)
+            if not hasattr(F, '_gsid'):
+                F._gsid = {}
+                for r in F.records:
+                    if r['n'] == 'get_state_id' and r.get('a') and 'value' in r['consts']:
+                        a = F.targs(r['a'])
+                        if len(a) >= 2: F._gsid.setdefault(strip_cvref(str(a[1])), set()).add(r['consts']['value'])
+            vals = F._gsid.get(st, set())
+            ok = cmpc in vals if len(vals) == 1 else True      # a state type used by several machines may have several ids: no oracle
+            R.ob('C03.introspect', ok, {'func': f.q, 'state': Facts.short(st, 50), 'compared_id': cmpc, 'state_id': sorted(vals)})
+            if not ok: R.find('C03.introspect', f, 'by-id', 'get_state_by_id returns state %s for id %s but that state\'s id is %s' % (Facts.short(st, 60), cmpc, sorted(vals)))
+
+@rule('owners')
+def owners(F, R):
+    """C09.owner: every back-end transition generated from a front-end row lives in the right cell and enters the right object:
+    its current_state_type is the row's source - or, for an exit pseudostate source, the submachine owning it - and its
+    next_state_type is the row's target - or, for direct / entry-point / fork targets, the submachine owning the named substates."""
+    M = Model(F)
+    def owner_of(t, kinds=('::exit_pt', '::entry_pt', '::direct')):
+        """for Sub::exit_pt<X> / Sub::entry_pt<X> / Sub::direct<X>: the machine type Sub (backmp11: the Derived argument)"""
+        head, args, rest = parse_type(t)
+        r = rest.strip()
+        if args is not None and any(r.startswith(k) for k in kinds):
+            if head.endswith('::state_machine_base') and len(args) >= 3: return strip_cvref(args[2])
+            return head + '<' + ', '.join(args) + '>'
+        return None
+    for r in F.records:
+        if r['n'] not in ('row_', 'a_row_', 'g_row_', '_row_', 'transition') or not r['loc'].startswith('boost/msm/back'): continue
+        if 'current_state_type' not in r['tds'] or 'next_state_type' not in r['tds']: continue
+        a = F.targs(r.get('a')) or []
+        if not a: continue
+        rowrec = F.rec_by_type(str(a[0]))
+        if not rowrec or 'Source' not in rowrec['tds'] or 'Target' not in rowrec['tds']: continue
+        src = strip_cvref(F.strs[rowrec['tds']['Source']]); tgt = strip_cvref(F.strs[rowrec['tds']['Target']])
+        cur = strip_cvref(F.strs[r['tds']['current_state_type']]); nxt = strip_cvref(F.strs[r['tds']['next_state_type']])
+        be = 'backmp11' if 'backmp11' in r['loc'] else 'back11' if 'back11' in r['loc'] else 'back'
+        R.anchor('transition-types:' + be)
+        exp_cur = owner_of(src, ('::exit_pt',)) or src
+        tl = type_list(tgt)
+        if tl:   # fork: all named substates belong to one submachine
+            owners_ = {owner_of(x, ('::entry_pt', '::direct')) for x in tl}
+            exp_nxt = owners_.pop() if len(owners_) == 1 else None
+        else:
+            exp_nxt = owner_of(tgt, ('::entry_pt', '::direct')) or tgt
+        # back keeps an explicit-entry state that is a row of its own machine as itself (get_owner returns the state); accept both
+        def own_wrapper(x, inner):
+            # back / back11 wrap a machine's own pseudo states: state_machine<..>::exit_pt<P> / entry_pt<P> for a row naming P
+            h_, a_, r_ = parse_type(x)
+            r_ = r_.strip()
+            if a_ is not None and (r_.startswith('::exit_pt<') or r_.startswith('::entry_pt<')):
+                ia = parse_type(r_[2:])[1]
+                return bool(ia) and strip_cvref(ia[0]) == inner
+            return False
+        ok = (cur == exp_cur or own_wrapper(cur, src)) and (exp_nxt is None or nxt == exp_nxt or nxt == tgt or own_wrapper(nxt, tgt))
+        R.ob('C09.owner', ok, {'row': Facts.short(str(a[0]), 80), 'current_state_type': Facts.short(cur, 50), 'next_state_type': Facts.short(nxt, 50)})
+        if not ok:
+            R.find('C09.owner', (r['loc'].split(':')[0], r['q']), 'owner', 'row %s: generated transition has source cell %s / target %s, the declaration requires %s / %s' % (Facts.short(str(a[0]), 100), Facts.short(cur, 60), Facts.short(nxt, 60), Facts.short(exp_cur, 60), Facts.short(str(exp_nxt), 60)), where=r['loc'], instance=Facts.short(str(a[0]), 200))
